@@ -26,8 +26,28 @@ type Facts struct {
 	PrivUses       []Use               `json:"privUses"`       // every use of the Atlas private key identifiers
 	Flags          []FlagDef           `json:"flags"`          // cobra flag bindings
 	Setters        []SetterCall        `json:"setters"`        // SetXxx(var) calls in the redact Run closure, with nesting depth
+	Globals        []Global            `json:"globals"`        // every package-level var of the non-test sources
+	GlobalWrites   []GWrite            `json:"globalWrites"`   // every syntactic write / address-taking / method call on a package-level var, with the enclosing function
+	GlobalRefs     []GRef              `json:"globalRefs"`     // number of identifier occurrences of each package-level var per function (reads and writes)
+	Inits          []string            `json:"inits"`          // init functions and package-level initialisers that call functions: "file:func"
 	Missing        []string            `json:"missing"`
 	Fingerprints   map[string]string   `json:"fingerprints"`   // function name -> size of its printed body (evidence only)
+}
+
+type Global struct {
+	Name string `json:"name"`
+	File string `json:"file"`
+}
+type GRef struct {
+	Var   string `json:"var"`
+	Func  string `json:"func"`
+	Count int    `json:"count"`
+}
+type GWrite struct {
+	Var  string `json:"var"`
+	Func string `json:"func"`
+	Kind string `json:"kind"` // assign | incdec | delete | copy | clear | addr | method:<M> | range
+	Pos  string `json:"pos"`
 }
 
 type Dispatch struct {
@@ -130,7 +150,15 @@ func main() {
 	src := os.Args[1]
 	var files []*ast.File
 	byName := map[string]*ast.File{}
-	for _, fn := range []string{"anonymizer.go", "main.go", "atlas.go", "helpers.go", "reader.go", "encryption.go"} {
+	all, _ := filepath.Glob(filepath.Join(src, "*.go"))
+	var fileNames []string
+	for _, p := range all {
+		if !strings.HasSuffix(p, "_test.go") {
+			fileNames = append(fileNames, filepath.Base(p))
+		}
+	}
+	sort.Strings(fileNames)
+	for _, fn := range fileNames {
 		f, err := parser.ParseFile(fset, filepath.Join(src, fn), nil, 0)
 		if err != nil {
 			fmt.Fprintln(os.Stderr, "parse error:", err)
@@ -405,7 +433,189 @@ func main() {
 			facts.Missing = append(facts.Missing, "func "+nm)
 		}
 	}
+	globalState(files, &facts)
+	for _, need := range []string{"anonymizer.go", "main.go", "atlas.go", "helpers.go", "reader.go", "encryption.go"} {
+		if byName[need] == nil {
+			facts.Missing = append(facts.Missing, "file "+need)
+		}
+	}
 	enc := json.NewEncoder(os.Stdout)
 	enc.SetIndent("", " ")
 	enc.Encode(facts)
+}
+
+
+// ---- package-level state: which variables exist, and who can change them
+func rootIdent(e ast.Expr) *ast.Ident {
+	for {
+		switch x := e.(type) {
+		case *ast.Ident:
+			return x
+		case *ast.IndexExpr:
+			e = x.X
+		case *ast.SelectorExpr:
+			e = x.X
+		case *ast.StarExpr:
+			e = x.X
+		case *ast.ParenExpr:
+			e = x.X
+		case *ast.SliceExpr:
+			e = x.X
+		default:
+			return nil
+		}
+	}
+}
+
+func globalState(files []*ast.File, facts *Facts) {
+	declPos := map[token.Pos]bool{}
+	isGlobal := map[string]bool{}
+	for _, f := range files {
+		fn := filepath.Base(fset.Position(f.Pos()).Filename)
+		for _, d := range f.Decls {
+			gd, ok := d.(*ast.GenDecl)
+			if !ok || gd.Tok != token.VAR {
+				continue
+			}
+			for _, sp := range gd.Specs {
+				vs := sp.(*ast.ValueSpec)
+				for _, nm := range vs.Names {
+					if nm.Name == "_" {
+						continue
+					}
+					facts.Globals = append(facts.Globals, Global{Name: nm.Name, File: fn})
+					isGlobal[nm.Name] = true
+					declPos[nm.Pos()] = true
+				}
+				for _, v := range vs.Values {
+					hasCall := false
+					ast.Inspect(v, func(x ast.Node) bool {
+						if _, ok := x.(*ast.FuncLit); ok {
+							return false
+						}
+						if c, ok := x.(*ast.CallExpr); ok {
+							nm := callName(c)
+							if nm != "make" && nm != "new" && nm != "len" && !strings.HasPrefix(nm, "regexp.") && !strings.HasPrefix(nm, "errors.") && !strings.HasPrefix(nm, "orderedmap.") {
+								hasCall = true
+							}
+						}
+						return true
+					})
+					if hasCall {
+						facts.Inits = append(facts.Inits, fn+":var "+vs.Names[0].Name)
+					}
+				}
+			}
+		}
+	}
+	ref := func(id *ast.Ident) bool {
+		if id == nil || !isGlobal[id.Name] {
+			return false
+		}
+		return id.Obj == nil || declPos[id.Obj.Pos()]
+	}
+	for _, f := range files {
+		fn := filepath.Base(fset.Position(f.Pos()).Filename)
+		for _, d := range f.Decls {
+			var body ast.Node
+			name := ""
+			switch x := d.(type) {
+			case *ast.FuncDecl:
+				if x.Body == nil {
+					continue
+				}
+				body = x.Body
+				name = x.Name.Name
+				if x.Recv != nil && len(x.Recv.List) == 1 {
+					var sb strings.Builder
+					printer.Fprint(&sb, fset, x.Recv.List[0].Type)
+					name = "(" + sb.String() + ")." + name
+				}
+				if x.Name.Name == "init" && x.Recv == nil {
+					facts.Inits = append(facts.Inits, fn+":init")
+				}
+			case *ast.GenDecl:
+				if x.Tok != token.VAR {
+					continue
+				}
+				body = x
+				name = "<package initialiser " + fn + ">"
+			default:
+				continue
+			}
+			add := func(id *ast.Ident, kind string, at ast.Node) {
+				if ref(id) {
+					facts.GlobalWrites = append(facts.GlobalWrites, GWrite{Var: id.Name, Func: name, Kind: kind, Pos: pos(at)})
+				}
+			}
+			refCount := map[string]int{}
+			ast.Inspect(body, func(n ast.Node) bool {
+				if vs, ok := n.(*ast.ValueSpec); ok {
+					if _, isDecl := d.(*ast.GenDecl); isDecl {
+						// package-level declaration: only the initialiser expressions are uses
+						for _, v := range vs.Values {
+							ast.Inspect(v, func(m ast.Node) bool {
+								if id, ok := m.(*ast.Ident); ok && ref(id) {
+									refCount[id.Name]++
+								}
+								return true
+							})
+						}
+						return false
+					}
+				}
+				if id, ok := n.(*ast.Ident); ok && ref(id) {
+					refCount[id.Name]++
+				}
+				return true
+			})
+			var rk []string
+			for k := range refCount {
+				rk = append(rk, k)
+			}
+			sort.Strings(rk)
+			for _, k := range rk {
+				facts.GlobalRefs = append(facts.GlobalRefs, GRef{Var: k, Func: name, Count: refCount[k]})
+			}
+			ast.Inspect(body, func(n ast.Node) bool {
+				switch x := n.(type) {
+				case *ast.AssignStmt:
+					if x.Tok == token.DEFINE {
+						return true
+					}
+					for _, l := range x.Lhs {
+						add(rootIdent(l), "assign", x)
+					}
+				case *ast.IncDecStmt:
+					add(rootIdent(x.X), "incdec", x)
+				case *ast.RangeStmt:
+					if x.Tok == token.ASSIGN {
+						if x.Key != nil {
+							add(rootIdent(x.Key), "range", x)
+						}
+						if x.Value != nil {
+							add(rootIdent(x.Value), "range", x)
+						}
+					}
+				case *ast.UnaryExpr:
+					if x.Op == token.AND {
+						add(rootIdent(x.X), "addr", x)
+					}
+				case *ast.CallExpr:
+					nm := callName(x)
+					if (nm == "delete" || nm == "copy" || nm == "clear") && len(x.Args) >= 1 {
+						add(rootIdent(x.Args[0]), nm, x)
+					}
+					if se, ok := x.Fun.(*ast.SelectorExpr); ok {
+						if id := rootIdent(se.X); id != nil && ref(id) {
+							add(id, "method:"+se.Sel.Name, x)
+						}
+					}
+				}
+				return true
+			})
+		}
+	}
+	sort.Slice(facts.Globals, func(i, j int) bool { return facts.Globals[i].Name < facts.Globals[j].Name })
+	sort.Strings(facts.Inits)
 }
